@@ -85,7 +85,10 @@ func histories(thorough bool) []history {
 	return hs
 }
 
-var configs = []string{"flush-every-commit", "write-back"}
+// Cache configurations: flush on every commit (cache limit 0), write-back (nothing is flushed
+// except by the commits marked Flush and by Close), small-cache (limit 64 bytes: the cache is
+// flushed whenever the previous commits exceed it, i.e. every second or third commit).
+var configs = []string{"flush-every-commit", "write-back", "small-cache"}
 
 // ---- model -----------------------------------------------------------------------------------------
 
@@ -206,9 +209,12 @@ func runActions(t database.Tx, acts []action, next int) error {
 
 func setup(db database.DB, cfg string, flushNow bool) {
 	ffldb.VerifSetMaxBlockFileSize(db, maxFile)
-	if cfg == "flush-every-commit" || flushNow {
+	switch {
+	case cfg == "flush-every-commit" || flushNow:
 		ffldb.VerifSetCache(db, 0, -1)
-	} else {
+	case cfg == "small-cache":
+		ffldb.VerifSetCache(db, 64, 1<<62)
+	default:
 		ffldb.VerifSetCache(db, 1<<40, 1<<62)
 	}
 }
@@ -316,8 +322,18 @@ func siteClass(site string) string {
 	return site
 }
 
-func execute(h history, cfg string, scratch string, only int) *execution {
-	ex := &execution{H: h, Cfg: cfg, Known: map[int]int{}}
+func execute(h history, cfg string, scratch string, only int) (ex *execution) {
+	ex = &execution{H: h, Cfg: cfg, Known: map[int]int{}}
+	// a panic of the code under test while the history runs (no crash involved) is a violation of
+	// its own; the crash states recorded so far are still checked
+	defer func() {
+		if p := recover(); p != nil {
+			if ex.Rec != nil {
+				ex.Rec.Enabled = false
+			}
+			ex.Problems = append(ex.Problems, violation{Sig: "panic-without-crash|" + evid.PanicSite(debug.Stack()), What: fmt.Sprintf("history %s (%s): panic while executing the history: %v", h.Name, cfg, p)})
+		}
+	}()
 	dbDir := filepath.Join(scratch, "db")
 	os.RemoveAll(scratch)
 	os.MkdirAll(scratch, 0o755)
@@ -439,6 +455,9 @@ func execute(h history, cfg string, scratch string, only int) *execution {
 		if flush && err == nil {
 			durable = commits // (a failed commit never reaches the cache flush)
 		}
+		if ck, cr := ffldb.VerifCacheLen(db); err == nil && ck == 0 && cr == 0 {
+			durable = commits // the commit went straight to leveldb (size-triggered flush)
+		}
 		setup(db, cfg, false)
 	}
 	rec.Context = fmt.Sprintf("%d %d close", durable, commits)
@@ -466,6 +485,9 @@ func execute(h history, cfg string, scratch string, only int) *execution {
 // instrumentedSites is set by build.sh (-ldflags -X) to the number of statement sites vinst
 // injected; a binary built without the overlay refuses to produce a verdict.
 var instrumentedSites string
+
+// instrumentedFuncs is set by build.sh to the comma separated list of instrumented functions.
+var instrumentedFuncs string
 
 func ffldbInstrumented() int {
 	n, _ := strconv.Atoi(instrumentedSites)
@@ -724,6 +746,7 @@ func main() {
 		"points_per_site":                         sites,
 		"recovered_state_per_site":                outcomes,
 		"instrumented_statement_sites":            ffldbInstrumented(),
+		"instrumented_functions":                  strings.Split(instrumentedFuncs, ","),
 		"histories":                               len(hs),
 		"cache_configurations":                    configs,
 		"max_block_file_size":                     maxFile,
